@@ -64,7 +64,10 @@ func collectStmts(p *LProgram) []stmtRef {
 			s := &(*blk)[i]
 			out = append(out, stmtRef{s: s, block: blk, idx: i, lastBlk: lastBlk, owner: owner, sub: sub})
 			if s.Compound {
-				walk(&s.Body, !s.HasElse, s, sub)
+				walk(&s.Body, !s.HasElse && len(s.Elifs) == 0, s, sub)
+				for k := range s.Elifs {
+					walk(&s.Elifs[k].Body, !s.HasElse && k == len(s.Elifs)-1, s, sub)
+				}
 				if s.HasElse {
 					walk(&s.Else, true, s, sub)
 				}
@@ -101,8 +104,48 @@ func genC12(t *rapid.T) any {
 				d.Rules = append(d.Rules, rapid.SampledFrom(c12Rules).Draw(t, "rule"))
 			}
 		}
-		kind := rapid.SampledFrom([]string{"next", "next", "this", "range", "range", "stacked", "accum"}).Draw(t, "dkind")
+		kind := rapid.SampledFrom([]string{"next", "next", "this", "range", "range", "stacked", "accum", "xrange"}).Draw(t, "dkind")
 		switch kind {
+		case "xrange":
+			// a range is lexical: -start in front of a statement, -end in front of ANY later statement of the
+			// file (another block, an enclosing block, a later subroutine)
+			if usedLead[r.s.ID] || r.s.Lead2 != "" {
+				continue
+			}
+			var later []stmtRef
+			for _, x := range cands {
+				if x.s.ID > maxID(r.s) && !usedLead[x.s.ID] && x.s.Lead2 == "" {
+					later = append(later, x)
+				}
+			}
+			if len(later) == 0 {
+				continue
+			}
+			e := later[rapid.IntRange(0, len(later)-1).Draw(t, "xend")]
+			// keep independent ranges apart: ids are in document order
+			first, last := r.s.ID, e.s.ID
+			overlap := false
+			for _, rg := range ranges {
+				if !(last < rg[0] || first > rg[1]) {
+					overlap = true
+				}
+			}
+			for id := range usedLead {
+				if id > first && id < last {
+					overlap = true // another directive sits inside
+				}
+			}
+			for id := range usedTrail {
+				if id >= first && id < last {
+					overlap = true
+				}
+			}
+			if overlap {
+				continue
+			}
+			ranges = append(ranges, [2]int{first, last})
+			usedLead[r.s.ID], usedLead[e.s.ID] = true, true
+			d.Kind, d.End = "xrange", e.s.ID
 		case "stacked":
 			// two falco-ignore-next-line comments in front of one statement, each with its own rule list
 			if usedLead[r.s.ID] || r.s.Lead2 == "" {
@@ -241,6 +284,13 @@ func maxID(s *LStmt) int {
 			m = v
 		}
 	}
+	for k := range s.Elifs {
+		for i := range s.Elifs[k].Body {
+			if v := maxID(&s.Elifs[k].Body[i]); v > m {
+				m = v
+			}
+		}
+	}
 	for i := range s.Else {
 		if v := maxID(&s.Else[i]); v > m {
 			m = v
@@ -357,6 +407,21 @@ func checkC12(raw json.RawMessage) iso.Result {
 				r.s.Lead = directiveText(d.Marker, "falco-ignore-next-line", d.Rules)
 			}
 			covers = append(covers, cover{span[d.Target][0], span[d.Target][1], d.Rules})
+		case "xrange":
+			e := byID[d.End]
+			r.s.Lead = directiveText(d.Marker, "falco-ignore-start", d.Rules)
+			endRules := d.Rules
+			if len(d.Rules) > 0 && d.Target%2 == 0 {
+				endRules = nil
+			}
+			e.s.Lead = directiveText(d.Marker, "falco-ignore-end", endRules)
+			// everything between the two comment lines (the end comment stands on the line before its statement)
+			covers = append(covers, cover{span[d.Target][0], span[d.End][0] - 2, d.Rules})
+			if r.sub != e.sub {
+				col.Label("dir:xrange-across-subroutines")
+			} else if r.block != e.block {
+				col.Label("dir:xrange-across-blocks")
+			}
 		case "accum":
 			blk := *r.block
 			t2, e := byID[d.Target2], byID[d.End]
@@ -450,6 +515,34 @@ func checkC12(raw json.RawMessage) iso.Result {
 		want = append(want, d)
 	}
 	sortDiags(want)
+	// unused/* diagnostics are located at the declaration but raised when the subroutine (or the file) ends:
+	// whether a range that is still open at that point hides them is a question of emission time, not of
+	// location. With a range that crosses a block or subroutine boundary they are left out of the comparison.
+	crosses := false
+	for _, d := range c.Dirs {
+		if d.Kind == "xrange" {
+			crosses = true
+		}
+	}
+	stmtLine := map[int]bool{}
+	for _, sp := range span {
+		for l := sp[0]; l <= sp[1]; l++ {
+			stmtLine[l] = true
+		}
+	}
+	if crosses {
+		filter := func(in []locDiag) []locDiag {
+			var out []locDiag
+			for _, d := range in {
+				// (likewise diagnostics located on a `sub` line come from passes that run before the bodies are linted)
+				if !strings.HasPrefix(d.Rule, "unused/") && stmtLine[d.Line] {
+					out = append(out, d)
+				}
+			}
+			return out
+		}
+		want, dVar = filter(want), filter(dVar)
+	}
 	if fmt.Sprint(want) != fmt.Sprint(dVar) {
 		col.FailKey(c12Key(c, want, dVar), "ignore comments did not suppress exactly what they cover\n%s\n covered line ranges: %+v\n--- variant ---\n%s", locDiff(want, dVar), covers, numbered(varSrc))
 	}
